@@ -428,3 +428,45 @@ package rules
 //@   xensures true
 //@   ensures old(ctx.chunkActualByteCount) + uint64(len(data)) <= old(ctx.chunkExpectedByteCount)
 //@   ensures old(ctx.chunkActualByteCount) + uint64(len(data)) < old(ctx.chunkExpectedByteCount) ==> ctx.chunkActualByteCount == old(ctx.chunkActualByteCount) + uint64(len(data))
+
+// ---------------------------------------------------------------------------------------------
+// Map keys (C12). NormKey is the value under which a key is entered in the key set of the current
+// container: every integer event form is brought to uint64 (non-negative) or int64 (negative down
+// to -2^63); strings, resource ids (type rid), booleans and negative zero stay as they are.
+//@ spec SmallIntKey(v int64, k any) any = ite(v >= 0, box(uint64(v)), ite(typeIs(k, "int64"), k, box(v)))
+//@ spec NormKey(key any) any = ite(typeIs(key, "int64"), SmallIntKey(payload(key, "int64"), key), ite(typeIs(key, "int"), SmallIntKey(int64(payload(key, "int")), key), ite(typeIs(key, "int32"), SmallIntKey(int64(payload(key, "int32")), key), ite(typeIs(key, "int16"), SmallIntKey(int64(payload(key, "int16")), key), ite(typeIs(key, "int8"), SmallIntKey(int64(payload(key, "int8")), key), ite(typeIs(key, "uint"), box(uint64(payload(key, "uint"))), ite(typeIs(key, "uint32"), box(uint64(payload(key, "uint32"))), ite(typeIs(key, "uint16"), box(uint64(payload(key, "uint16"))), ite(typeIs(key, "uint8"), box(uint64(payload(key, "uint8"))), ite(typeIs(key, "negint") && payload(key, "negint") >= 1 && payload(key, "negint") <= 0x8000000000000000, box(int64(0 - uint64(payload(key, "negint")))), ite(typeIs(key, "*big.Int") && bigIs64[uint64(payload(key, "*big.Int"))] && !bigNeg[uint64(payload(key, "*big.Int"))], box(bigLo[uint64(payload(key, "*big.Int"))]), ite(typeIs(key, "*big.Int") && bigIs64[uint64(payload(key, "*big.Int"))] && bigNeg[uint64(payload(key, "*big.Int"))] && bigLo[uint64(payload(key, "*big.Int"))] <= 0x8000000000000000, box(int64(0 - bigLo[uint64(payload(key, "*big.Int"))])), key))))))))))))
+// Keys this contract covers: the scalar key kinds and big integers within 64 bits plus sign (UIDs,
+// times and wider big integers take the array/string paths of NotifyKey, which are not stated here).
+//@ spec KeyCovered(key any) bool = typeIs(key, "int64") || typeIs(key, "int") || typeIs(key, "int32") || typeIs(key, "int16") || typeIs(key, "int8") || typeIs(key, "uint64") || typeIs(key, "uint") || typeIs(key, "uint32") || typeIs(key, "uint16") || typeIs(key, "uint8") || typeIs(key, "bool") || typeIs(key, "string") || typeIs(key, "rid") || (typeIs(key, "negint") && payload(key, "negint") <= 0x8000000000000000) || (typeIs(key, "*big.Int") && payload(key, "*big.Int") != nil && big.WF(payload(key, "*big.Int")) && bigIs64[uint64(payload(key, "*big.Int"))] && (!bigNeg[uint64(payload(key, "*big.Int"))] || bigLo[uint64(payload(key, "*big.Int"))] <= 0x8000000000000000))
+
+//@ func (*Context).NotifyKey
+//@   requires _this.CurrentEntry.Keys != nil && KeyCovered(key)
+//@   modifies mapof(_this.CurrentEntry.Keys), alloc
+//@   panics has(_this.CurrentEntry.Keys, NormKey(key))
+//@   ensures has(_this.CurrentEntry.Keys, NormKey(key))
+//@   ensures forall k any :: k != NormKey(key) ==> has(_this.CurrentEntry.Keys, k) == old(has(_this.CurrentEntry.Keys, k))
+
+// The same integer, however the event carries it, is the same key; different integers are
+// different keys (box is injective per type and the types uint64 / int64 split the values by sign).
+//@ lemma rules.key-int-vs-negint forall v int64, m uint64 :: m >= 1 && m <= 0x8000000000000000 ==> ((NormKey(box(v)) == NormKey(box(negint(m)))) <==> (v == int64(0 - m)))
+//@ lemma rules.key-uint-vs-int forall a uint64, v int64 :: (NormKey(box(a)) == NormKey(box(v))) <==> (v >= 0 && uint64(v) == a)
+//@ lemma rules.key-uint-vs-negint forall a uint64, m uint64 :: m >= 1 && m <= 0x8000000000000000 ==> NormKey(box(a)) != NormKey(box(negint(m)))
+//@ lemma rules.key-negint-vs-negint forall m uint64, n uint64 :: m >= 1 && m <= 0x8000000000000000 && n >= 1 && n <= 0x8000000000000000 ==> ((NormKey(box(negint(m))) == NormKey(box(negint(n)))) <==> m == n)
+//@ lemma rules.key-small-int-widths forall a int8, b int32 :: (NormKey(box(a)) == NormKey(box(b))) <==> (int32(a) == b)
+
+// Map keys and record-type fields: a keyable scalar is entered under its normal form and rejected
+// if that is already present; a map key then switches to expecting the value.
+//@ func (*MapKeyRule).switchMapValue
+//@   inline
+//@ func (*MapKeyRule).OnKeyableObject
+//@   requires ctx != nil && ctx.CurrentEntry.Keys != nil && KeyCovered(key)
+//@   modifies mapof(ctx.CurrentEntry.Keys), ctx.CurrentEntry.Rule, alloc
+//@   panics has(ctx.CurrentEntry.Keys, NormKey(key))
+//@   ensures has(ctx.CurrentEntry.Keys, NormKey(key))
+//@   ensures forall k any :: k != NormKey(key) ==> has(ctx.CurrentEntry.Keys, k) == old(has(ctx.CurrentEntry.Keys, k))
+//@ func (*RecordTypeRule).OnKeyableObject
+//@   requires ctx != nil && ctx.CurrentEntry.Keys != nil && KeyCovered(key)
+//@   modifies mapof(ctx.CurrentEntry.Keys), alloc
+//@   panics has(ctx.CurrentEntry.Keys, NormKey(key))
+//@   ensures has(ctx.CurrentEntry.Keys, NormKey(key))
+//@   ensures forall k any :: k != NormKey(key) ==> has(ctx.CurrentEntry.Keys, k) == old(has(ctx.CurrentEntry.Keys, k))
